@@ -80,6 +80,7 @@ class RefShampoo:
         self.kappa = 1.0
         self.near_cut = False
         self.nroots = 0
+        self.cancel = 1.0      # largest ||P|| ||g|| / ||P g|| seen: how much of the preconditioned gradient is rounding noise
 
     def root(self, C):
         np = self.np
@@ -100,6 +101,7 @@ class RefShampoo:
     def step(self, t, G):
         np, c = self.np, self.c
         out = np.zeros_like(G)
+        bound2 = 0.0
         for k in self.keys:
             sl = tuple(slice(*r[i]) for r, i in zip(self.ranges, k))
             gb = G[sl]
@@ -112,9 +114,15 @@ class RefShampoo:
             if t % c["pf"] == 0:
                 self.roots[k] = [self.root(C) for C in self.stats[k]]
             y = gb
+            amp = 1.0
             for a in range(len(self.ms)):
                 y = _apply_axis(np, y, self.roots[k][a], a)
+                amp *= float(np.linalg.norm(self.roots[k][a], 2))
             out[sl] = y
+            bound2 += (amp * float(np.linalg.norm(gb))) ** 2
+        nb = float(np.linalg.norm(out))
+        if bound2 > 0:
+            self.cancel = max(self.cancel, math.sqrt(bound2) / nb if nb > 0 else float("inf"))
         return out
 
 
@@ -132,6 +140,7 @@ class RefSketchy:
         self.inv_rho = [0.0 for _ in ms]
         self.kappa = 1.0
         self.near_cut = False
+        self.cancel = 1.0
         self.alpha = -1.0 / (2 * max(len(ms), 1))
 
     def fd(self, a, G):
@@ -170,10 +179,15 @@ class RefSketchy:
             for a in range(len(self.ms)):
                 self.fd(a, G)
         y = G
+        amp = 1.0
         for a in range(len(self.ms)):
             V = self.V[a]
             P = (V * self.inv[a][None, :]) @ V.T + self.inv_rho[a] * (np.eye(self.ms[a]) - V @ V.T)
             y = _apply_axis(np, y, P, a)
+            amp *= float(np.linalg.norm(P, 2))
+        ng, ny = float(np.linalg.norm(G)), float(np.linalg.norm(y))
+        if amp * ng > 0:
+            self.cancel = max(self.cancel, amp * ng / ny if ny > 0 else float("inf"))
         return y
 
 
@@ -270,7 +284,8 @@ def ref_leaf(np, c, name, grads, xs, lr_scale=1.0):
         sos.append(b)
         grafts.append(gs)
     return {"upd": outs, "so": sos, "graft": grafts, "masked": masked, "merged": ms,
-            "kappa": so.kappa if so is not None else 1.0, "near_cut": bool(so.near_cut) if so is not None else False}
+            "kappa": (so.kappa * min(so.cancel, 1e30)) if so is not None else 1.0,
+            "near_cut": bool(so.near_cut) if so is not None else False}
 
 
 # ============================================================================ histories
@@ -542,6 +557,12 @@ def oracle_tol(c, ref):
     return tol
 
 
+def ill_conditioned(c, ref):
+    """the specification is discontinuous or its conditioning leaves no meaningful tolerance: an eigenvalue next to the cut, or a
+    preconditioned gradient that is (almost) entirely rounding noise (kappa includes the cancellation factor ||P|| ||g|| / ||P g||)"""
+    return bool(ref["near_cut"]) or ref["kappa"] > (1e6 if c["so"] == "shampoo" else 1e4)
+
+
 def _impl_shapes(c, name):
     """shape bookkeeping observed on the real code (private helpers of the anchored modules; None if unavailable)"""
     try:
@@ -572,7 +593,7 @@ def run_full(c):
         ref = ref_leaf(np, c, name, grads[name], xs[name])
         tol = oracle_tol(c, ref)
         errs = [_rel_err(np, out[name][t], ref["upd"][t]) for t in range(c["T"])]
-        L = {"tol": tol, "kappa": ref["kappa"], "near_cut": ref["near_cut"], "masked": ref["masked"], "merged": ref["merged"],
+        L = {"tol": tol, "kappa": ref["kappa"], "near_cut": ill_conditioned(c, ref), "masked": ref["masked"], "merged": ref["merged"],
              "errs": errs, "upd": [_hx(out[name][t]) for t in range(c["T"])], "shapes": _impl_shapes(c, name),
              "nontrivial": [], "dtype_ok": all(str(out[name][t].dtype) == ("float64" if c["x64"] else "float32")
                                                for t in range(c["T"]))}
@@ -584,7 +605,7 @@ def run_full(c):
                 cos = abs(float(gs @ bb)) / max(float(np.linalg.norm(gs) * np.linalg.norm(bb)), 1e-300)
                 if cos < 0.999:
                     L["nontrivial"].append(t)
-        if not ref["near_cut"]:
+        if not L["near_cut"]:
             for t in range(c["T"]):
                 if not (errs[t] <= tol):
                     res["fails"].append({"what": "tearfree update differs from the documented composition (float64 reference): "
